@@ -11,7 +11,7 @@ check reports it (and searches for a failing input); the translator never guesse
       escape_string                      chain `result = result.replace(A, B)` -> g_ql_escape_table (in order)
       quote_literal                      `"'" + escape_string(string) + "'"`  -> g_ql_lit_quote
       dollar_quote_literal               constants '$$', 16, 10, '${:x}$'     -> g_dq_*
-      needs_quoting                      '@', '::', {'__type__','__std__'}    -> g_ql_*
+      needs_quoting                      '@', '::', '__' / '__' (reserved dunder names stay bare) -> g_ql_*
       _quote_ident / quote_ident         '`' / '``'
   edb/edgeql/codegen.py
       _BYTES_ESCAPE_RE, _NON_PRINTABLE_RE  single character class -> ranges
@@ -245,7 +245,9 @@ def translate(repo, print_shapes=False):
     _need(len(c[0]) == 1, 'needs_quoting: startswith arg')
     G['g_ql_bad_start'] = ord(c[0])
     G['g_ql_bad_sub'] = cps(c[1])
-    G['g_ql_reserved_exempt'] = [cps(c[3]), cps(c[4])]
+    # not (lower.startswith(A) and lower.endswith(B)) and lower in reserved
+    G['g_ql_exempt_start'] = cps(c[3])
+    G['g_ql_exempt_end'] = cps(c[4])
 
     c = t.shape('quote._quote_ident', _find(mod, ast.FunctionDef, '_quote_ident'))
     _need(len(c) == 4 and c[0] == c[1] == c[3] and len(c[0]) == 1, f'_quote_ident consts {c}')
@@ -278,7 +280,7 @@ def translate(repo, print_shapes=False):
     c = t.shape('codegen._bytes_escape', _find(mod, ast.FunctionDef, '_bytes_escape'))
     _need(c == [0, b'\\x%02x', 0], f'_bytes_escape consts {c}')
     c = t.shape('codegen.param_to_str', _find(mod, ast.FunctionDef, 'param_to_str'))
-    _need(c == ['$', True, True], f'param_to_str consts {c}')
+    _need(c == ['`', '$', '$', True, True], f'param_to_str consts {c}')
     c = t.shape('codegen.ident_to_str', _find(mod, ast.FunctionDef, 'ident_to_str'))
     _need(c == [False, '::', '::'], f'ident_to_str consts {c}')
     cls = _find(mod, ast.ClassDef, 'EdgeQLSourceGenerator')
@@ -429,7 +431,8 @@ def emit(G):
     d('g_dq_close', 'list N', _l(G['g_dq_close']))
     d('g_ql_bad_start', 'N', _n(G['g_ql_bad_start']))
     d('g_ql_bad_sub', 'list N', _l(G['g_ql_bad_sub']))
-    strs('g_ql_reserved_exempt', G['g_ql_reserved_exempt'])
+    d('g_ql_exempt_start', 'list N', _l(G['g_ql_exempt_start']))
+    d('g_ql_exempt_end', 'list N', _l(G['g_ql_exempt_end']))
     d('g_ql_id_quote', 'N', _n(G['g_ql_id_quote']))
     d('g_ql_id_rep', 'list N', _l(G['g_ql_id_rep']))
     ranges('g_qlb_class', G['g_qlb_class'])
